@@ -453,8 +453,10 @@ def maps(ctx, lines, expect):
             pix.append(pix[0])                                              # two curves at one pixel
         grp = group.IndentationGroup()
         curves = []
+        # (every second map has curves long enough for the rater's size criterion: non-trivial ratings)
+        npts = 650 if i % 2 == 1 else 90
         for j, (xi, yi) in enumerate(pix):
-            idnt = synth_curve(rng.randrange(1 << 20), extra_meta=grid_meta(xn, yn, xi, yi), enum=j,
+            idnt = synth_curve(rng.randrange(1 << 20), n=npts, extra_meta=grid_meta(xn, yn, xi, yi), enum=j,
                                E=rng.choice([300.0, 800.0, 2500.0]), cp=rng.choice([0.0, 1e-7, -2e-7]))
             grp.append(idnt)
             curves.append({"xi": xi, "yi": yi, "idnt": idnt})
@@ -503,7 +505,11 @@ def maps(ctx, lines, expect):
                                 pass
                         else:
                             if idnt.fit_properties.get("success", False):
-                                idnt.rate_quality(regressor="Extra Trees", training_set=ts, names=names)
+                                # (non-default rating settings: the map shows THIS rating)
+                                rv = idnt.rate_quality(regressor=rng.choice(["Extra Trees", "Decision Tree"]),
+                                                       training_set=ts, names=names)
+                                kk = "rating=" + ("trivial (0 / -1)" if rv in (0, -1) else "non-trivial")
+                                ctx.dist[kk] = ctx.dist.get(kk, 0) + 1
                     except BaseException as e:  # noqa
                         ctx.notes.append(f"map action {act} raised {e!r}")
             observe_map(ctx, qm, curves, xn, yn, f"round{rnd}:{act}", lines, expect, meta)
